@@ -486,7 +486,8 @@ def _one(rng, N, tier):
     case["wtype"] = rng.choice([None, None, "emmotl", "emmotl", "kw:emmotl", "EMMOTL", "EmMotl"])   # None: keyword omitted (default)
     case["load"] = rng.choice(["default", "default", "typed", "kw", "ctor"])
     case["path"] = rng.choice(["str", "str", "pathlib"])
-    case["same_path_twice"] = rng.random() < 0.2   # G2: the path already holds another (longer) list before the write
+    _r = rng.random()   # G2: the path already holds another list before the write (and was loaded once): "same" = a list of the SAME length
+    case["same_path_twice"] = ("same" if _r < 0.1 else True) if _r < 0.2 else False   # (same N = same EM header: a cache keyed by path + header shows only here)
     if N >= 2 and rng.random() < 0.3:              # history: the held list is re-ordered / relabelled between construction and writing
         order = list(range(N))
         kind = rng.choice(["shuffle", "reverse", "sort_values", "rotate"])
@@ -668,8 +669,8 @@ def run_impl(case):
             p = os.path.join(td, f"{path_kind}.em")
             cls = cryomotl.Motl if path_kind == "motl" else cryomotl.EmMotl
             if case.get("same_path_twice") and not malformed:
-                # the same path first receives a different, longer list (and is loaded once): state must not carry over
-                other = pd.DataFrame({c: np.arange(len(df) + 3, dtype=float) + k for k, c in enumerate(DOCUMENTED)})
+                # the same path first receives a different list - longer, or of the same length - and is loaded once: state must not carry over
+                other = pd.DataFrame({c: np.arange(len(df) + (0 if case.get("same_path_twice") == "same" else 3), dtype=float) + k for k, c in enumerate(DOCUMENTED)})
                 cryomotl.EmMotl(other).write_out(p)
                 cryomotl.Motl.load(p)
             stage = "construct"
